@@ -3,7 +3,7 @@ CONSTANTS
   TxDef <- Tx3
   Heads <- Heads2
   CLimit = 2
-  CLimitPerAccount = 2
+  CLimitPerAccount = 1
   CLifetime = "never"
   CIdentityCheck = TRUE
   Sources = {"remote"}
